@@ -15,10 +15,12 @@
 (* labelled.  Readers act between transactions and in the body of a write  *)
 (* transaction (a commit waits for them; interleavings of readers with the *)
 (* steps of a commit are replayed by the lock-level check of C02/C09).     *)
-(* CrashRecover is used as a clean close + reopen only (crash points are   *)
-(* explored by C01 on the real I/O).                                       *)
+(* A clean close + reopen is a step that leaves the model unchanged (crash *)
+(* points are explored by C01 on the real I/O).                            *)
 (***************************************************************************)
 EXTENDS TxFile
+
+CONSTANT Busy   \* TRUE (random walks): a transaction is ended only after at least two calls
 
 VARIABLE hist
 
@@ -44,19 +46,23 @@ RNext ==
   \/ AllocPage /\ L("A" \o ToString(DataTake(al).p))
   \/ Flush /\ L("L")
   \/ Checkpoint /\ L("P")
-  \/ InBody /\ Rollback /\ L("K:" \o Logical(cm))
+  \/ InBody /\ (Busy => nops >= 2) /\ Rollback /\ L("K:" \o Logical(cm))
   \/ \E p \in 2..(NP - 1) :
         \/ WritePage(p) /\ L("W" \o ToString(p) \o "=" \o ToString(ver + 1))
         \/ FreePage(p) /\ L("F" \o ToString(p))
         \/ SetRoot(p) /\ L("S" \o ToString(p))
   \/ SetRoot(0) /\ L("S0")
-  \/ DOMAIN rds = {} /\ CFlush /\ L("C")
+  \/ DOMAIN rds = {} /\ (Busy => nops >= 2) /\ CFlush /\ L("C")
   \/ (CPrepare \/ CAllocMeta \/ CSerialize \/ CSync1 \/ CHeader \/ CSync2 \/ CSwitch) /\ Silent
   \/ CDone /\ L("D:" \o Logical(cm))
   \/ \E r \in Readers :
         \/ RdOK /\ BeginRead(r) /\ L("R" \o ToString(r) \o ":" \o Logical(cm))
         \/ RdOK /\ EndRead(r) /\ L("E" \o ToString(r) \o ":" \o Logical(rds[r]))
-  \/ tx = NoTx /\ pend = <<>> /\ DOMAIN rds = {} /\ CrashRecover /\ L("O:" \o Logical(cm'))
+  \* clean close + reopen between transactions: by ReopenStable the rebuilt state is the current
+  \* one, so the model does not change (CrashRecover would read the disk for pages that were
+  \* allocated but never written - their contents are undefined, and the real file, whose
+  \* allocator hands out other ids, need not show the same left-overs)
+  \/ tx = NoTx /\ pend = <<>> /\ DOMAIN rds = {} /\ ntx < MaxTx /\ UNCHANGED xvars /\ L("O:" \o Logical(cm))
 
 RSpec == RInit /\ [][RNext]_<<xvars, hist>>
 
